@@ -38,8 +38,9 @@ InRangeI(n, v) ==      \* -2^(n-1) <= v <= 2^(n-1) - 1
   ELSE IsZero(v) \/ CmpPow(v.e, 0 - v.o, n - 1, 0) <= 0          \* 2^e - o <= 2^(n-1)
 
 \* character classes: a = printable ASCII, c = ASCII control (tab, NUL, DEL), l = U+0080..U+00FF, w = other BMP letters,
-\* m = combining mark, x = beyond the BMP, s = lone surrogate (only expressible through an escape)
-CharClasses == {"a", "c", "l", "w", "m", "x", "s"}
+\* m = combining mark, x = beyond the BMP, s = lone surrogate (only expressible through an escape),
+\* k = a non-ASCII character that Unicode normalisation maps to an ASCII one (KELVIN SIGN, GREEK QUESTION MARK ...)
+CharClasses == {"a", "c", "l", "w", "m", "x", "s", "k"}
 OneAscii(cs) == Len(cs) = 1 /\ cs[1] \in {"a", "c"}
 Strings == {<<>>} \cup { <<x>> : x \in CharClasses } \cup { <<x, y>> : x \in CharClasses, y \in CharClasses }
            \cup { <<x, y, z>> : x \in {"a", "m", "l"}, y \in {"a", "m", "l"}, z \in {"a", "m", "l"} }
